@@ -357,8 +357,156 @@ def check_connect(rnd, model, tree):
                         raise Fail(inp, f"TLS decision wrong for scheme {scheme!r}: {log}")
 
 
+
+class _FakeSock:
+    """scripted socket: send() accepts at most `cap` bytes; `fail` = exception to raise on the k-th op"""
+
+    def __init__(self, cap=1 << 30, fail=None, fail_at=0, recv_data=b"data"):
+        self.cap, self.fail, self.fail_at, self.recv_data = cap, fail, fail_at, recv_data
+        self.sent = b""
+        self.timeout = "unset"
+        self.ops = []
+
+    def settimeout(self, t):
+        self.timeout = t
+
+    def _op(self, name):
+        self.ops.append((name, self.timeout))
+        if self.fail is not None and len(self.ops) - 1 == self.fail_at:
+            raise self.fail
+
+    def send(self, data):
+        self._op("send")
+        n = max(1, min(self.cap, len(data)))
+        self.sent += bytes(data[:n])
+        return n
+
+    def sendall(self, data):
+        self._op("sendall")
+        self.sent += bytes(data)
+
+    def recv(self, n):
+        self._op("recv")
+        return self.recv_data[:n]
+
+    def close(self):
+        self.ops.append(("close", self.timeout))
+
+
+def check_sync_stream(rnd, model, tree):
+    """SyncStream.read / write against a scripted socket: short sends, the timeout in force at each
+    blocking call, and the class of the mapped exception (timeout -> *Timeout, any other OSError -> *Error)"""
+    import socket
+    from httpcore._backends.sync import SyncStream
+
+    for cap in (1, 2, 7, 1500, 1 << 20):
+        for size in (0, 1, 5, 1499, 1500, 1501, 10240):
+            for timeout in (None, 0.25, 3.0):
+                buf = bytes(rnd.randrange(256) for _ in range(size))
+                sk = _FakeSock(cap=cap)
+                SyncStream(sk).write(buf, timeout=timeout)
+                inp = {"op": "write", "send_accepts_at_most": cap, "len(buffer)": size, "timeout": timeout}
+                if sk.sent != buf:
+                    raise Fail(inp, f"{len(sk.sent)} of {size} bytes reached the socket (in order: {sk.sent == buf[:len(sk.sent)]})")
+                bad = [o for o in sk.ops if o[0] in ("send", "sendall") and o[1] != timeout]
+                if bad:
+                    raise Fail(inp, f"send issued under socket timeout {bad[0][1]!r}, expected {timeout!r}")
+    cases = [(socket.timeout("t"), "Timeout"), (OSError(32, "EPIPE"), "Error"), (ConnectionResetError(104, "reset"), "Error"), (BrokenPipeError(32, "pipe"), "Error")]
+    for exc, suffix in cases:
+        for op in ("read", "write"):
+            for fail_at in (0, 1):
+                if op == "read" and fail_at:
+                    continue
+                sk = _FakeSock(cap=3, fail=exc, fail_at=fail_at)
+                inp = {"op": op, "socket_raises": repr(exc), "at_call": fail_at}
+                try:
+                    r = SyncStream(sk).read(100, timeout=1.0) if op == "read" else SyncStream(sk).write(b"0123456789", timeout=1.0)
+                except Exception as e:  # noqa: BLE001
+                    want = ("Read" if op == "read" else "Write") + suffix
+                    if type(e).__name__ != want:
+                        raise Fail(inp, f"raised {type(e).__name__}, expected {want}")
+                else:
+                    raise Fail(inp, f"socket failure became a normal return {r!r}")
+    for timeout in (None, 0.5):
+        sk = _FakeSock(recv_data=b"hello world")
+        r = SyncStream(sk).read(5, timeout=timeout)
+        inp = {"op": "read", "max_bytes": 5, "timeout": timeout}
+        if r != b"hello":
+            raise Fail(inp, f"read returned {r!r}, the socket returned b'hello'")
+        if [o for o in sk.ops if o[0] == "recv" and o[1] != timeout]:
+            raise Fail(inp, f"recv issued under socket timeout {sk.ops[0][1]!r}")
+
+
+def check_async_stream(rnd, model, tree, which):
+    """AnyIOStream / TrioStream read+write against a scripted runtime stream: whole buffer handed over,
+    a runtime failure is never turned into EOF, exception classes match the cause"""
+    if which == "anyio":
+        import anyio
+        from httpcore._backends.anyio import AnyIOStream as S
+
+        broken, run = anyio.BrokenResourceError, anyio.run
+    else:
+        import trio
+        from httpcore._backends.trio import TrioStream as S
+
+        broken, run = trio.BrokenResourceError, trio.run
+
+    class RT:
+        def __init__(self, fail=None):
+            self.fail, self.sent = fail, b""
+
+        async def receive(self, max_bytes=65536):
+            if self.fail:
+                raise self.fail
+            return b"hello"[:max_bytes]
+
+        receive_some = receive
+
+        async def send(self, item=None, data=None):
+            if self.fail:
+                raise self.fail
+            self.sent += item if item is not None else data
+
+        async def send_all(self, data):
+            await self.send(data=data)
+
+    def mk_reset():
+        e = broken()
+        e.__cause__ = ConnectionResetError(104, "reset")
+        return e
+
+    async def scenario():
+        for size in (1, 1500, 70000):
+            buf = bytes(rnd.randrange(256) for _ in range(size))
+            rt = RT()
+            await S(rt).write(buf, timeout=1.0)
+            if rt.sent != buf:
+                raise Fail({"op": "write", "len(buffer)": size}, f"{len(rt.sent)} of {size} bytes handed to the runtime")
+        r = await S(RT()).read(3, timeout=1.0)
+        if r != b"hel":
+            raise Fail({"op": "read", "max_bytes": 3}, f"read returned {r!r}")
+        for op in ("read", "write"):
+            for exc in (broken(), mk_reset()):
+                inp = {"op": op, "runtime_raises": repr(exc), "cause": repr(exc.__cause__)}
+                try:
+                    r = await (S(RT(exc)).read(10, timeout=1.0) if op == "read" else S(RT(exc)).write(b"abc", timeout=1.0))
+                except Exception as e:  # noqa: BLE001
+                    want = "ReadError" if op == "read" else "WriteError"
+                    if type(e).__name__ != want:
+                        raise Fail(inp, f"raised {type(e).__name__}, expected {want}")
+                else:
+                    raise Fail(inp, f"runtime failure became a normal return {r!r}")
+
+    run(scenario)
+
 CHECKS = {
     "HTTPConnection._connect": check_connect,
+    "SyncStream.read": check_sync_stream,
+    "SyncStream.write": check_sync_stream,
+    "AnyIOStream.read": lambda r, m, t: check_async_stream(r, m, t, "anyio"),
+    "AnyIOStream.write": lambda r, m, t: check_async_stream(r, m, t, "anyio"),
+    "TrioStream.read": lambda r, m, t: check_async_stream(r, m, t, "trio"),
+    "TrioStream.write": lambda r, m, t: check_async_stream(r, m, t, "trio"),
     "AsyncHTTP11UpgradeStream.read": check_upgrade_read,
     "merge_headers": check_merge,
     "include_request_headers": check_include,
